@@ -113,11 +113,17 @@ def rand_ops(rng, k, maxfill=3000, small_bias=0.7):
             ops.append(f"fill {n}")
     return ops
 
+def fill_offset(n):
+    """offset of the destination from a 16-byte aligned address: a third of the fills are aligned, the others are not"""
+    return 0 if n % 3 == 0 else (n * 7 + 3) % 16
+
 def op_lines(slot, ops):
     out = []
     for o in ops:
         if o.startswith("fill"):
-            out.append(f"fill {slot} {o.split()[1]}")
+            n = int(o.split()[1])
+            off = fill_offset(n)
+            out.append(f"fill {slot} {n}" + (f" {off}" if off else ""))
         else:
             out.append(f"{o} {slot}")
     return out
@@ -136,6 +142,35 @@ def words_needed(g, ops):
             tot += (n // 4 + 3) if w == 32 else (n // 8 + 2)
     return tot + 2
 
+
+
+# ------------------------------------------------------------------ numeric literals that are new in the current source
+_NEWLIT = {}
+def new_literals(maxv=1 << 64):
+    """integer literals (and 1 << K constants) that occur in the current sources of the five crates but not in the pinned
+    sources (/verif/pinned_src): thresholds, bounds and magic values a change introduced.  They are used as boundary values
+    for lengths, counts and words.  Empty on the unchanged tree."""
+    import glob, re
+    if "v" not in _NEWLIT:
+        def lits(root):
+            out = set()
+            for f in glob.glob(os.path.join(root, "rand_*", "src", "*.rs")):
+                try:
+                    txt = re.sub(r"//[^\n]*", "", open(f).read())
+                except OSError:
+                    continue
+                txt = txt.split("#[cfg(test)]")[0]
+                for m in re.finditer(r"(?<![\w.])(0x[0-9a-fA-F_]+|0b[01_]+|\d[\d_]*)(?:[iu](?:8|16|32|64|128|size))?\b", txt):
+                    try:
+                        out.add(int(m.group(1).replace("_", ""), 0))
+                    except ValueError:
+                        pass
+                for m in re.finditer(r"\b1(?:[iu]\d+|usize)?\s*<<\s*(\d+)", txt):
+                    out.add(1 << int(m.group(1)))
+            return out
+        cur, pin = lits(REPO), lits(os.path.join(VERIF, "pinned_src"))
+        _NEWLIT["v"] = sorted(v for v in cur - pin if v > 3) if pin else []
+    return [v for v in _NEWLIT["v"] if v <= maxv]
 
 # ------------------------------------------------------------------ states chosen by the OUTPUT they produce / by a successor
 def _rotr(x, r, w):
@@ -298,6 +333,7 @@ def tie_C02(ctx):
         cases.append([f"new 0 Hc128Rng seed {sd.hex()}", f"fill 0 {4 * 66000}", "u32 0", f"fill 0 {4 * 3000}", "u64 0"])
         ctx.dist["hc128:deep>65536 words"] += 1
     ctx.absolute("keystream(Hc128Rng) vs model", cases)
+    core_level(ctx, ["Hc128Rng"])
 
 def tie_C03(ctx):
     rng = ctx.rng
@@ -337,6 +373,7 @@ def tie_C03(ctx):
             cases.append([f"new 0 {g} seed {rand_bytes(rng, 32).hex()}", f"fill 0 {500 * 256 * wbytes}", f"{native(g)} 0"])
             ctx.dist[f"{g}:500-blocks"] += 1
     ctx.absolute("stream(IsaacRng, Isaac64Rng) vs model", cases)
+    core_level(ctx, ["IsaacRng", "Isaac64Rng"])
 
 # ------------------------------------------------------------------ C05: projections of one stream
 def proj_tokens(ops):
@@ -376,6 +413,28 @@ def tie_C05(ctx):
                 if o.startswith("fill"):
                     n = int(o.split()[1])
                     ctx.dist[f"tail%8={n % 8}"] += 1
+    # large requests (bulk fast paths): around 4096 / 8192 bytes, multiples of 8 that are not multiples of 64, odd sizes; and
+    # lengths around every numeric literal that is new in the source
+    big = [4095, 4096, 4097, 4104, 8200, 10000, 12345] + ([65536, 65544, 131080] if ctx.thorough else [])
+    harvested = sorted({x for L in new_literals(1 << 20) for x in (L - 1, L, L + 1, L + 8, 2 * L + 8) if 0 < x <= (1 << 21)})
+    for g in GENS:
+        info = GENS[g]
+        nat = native(g)
+        lens = (big if ctx.thorough else rng.sample(big, 3)) + harvested[:40]
+        for n in lens:
+            pre = ["u32"] * rng.choice([0, 1, 3]) if "blk" in info else []
+            ops = pre + [f"fill {n}", rng.choice(["u32", "u64"])]
+            seed = rand_bytes(rng, info["seed"])
+            need = words_needed(g, ops)
+            c = [f"new 0 {g} seed {seed.hex()}", "clone 1 0"] + op_lines(0, ops) + [f"{nat} 0"]
+            ts = len(c)
+            if g == "SplitMix64":
+                for _ in range(need):
+                    c += ["clone 2 1", "u32 2", "u64 1"]
+            else:
+                c += [f"{nat} 1"] * need
+            cases.append(c); meta.append((g, ops, len(ops), ts, need))
+            ctx.dist["large-fill" if n in big else "harvested-literal-length"] += 1
     for g in ("Hc128Rng", "IsaacRng", "Isaac64Rng"):
         info = GENS[g]
         blk, wb = info["blk"], info["w"] // 8
@@ -930,6 +989,7 @@ def xorshift_zero_runs(ctx, family, fail_prop=None):
     Property-level oracle on the real code (the redraw rule of C08/C09) + comparison with the model."""
     rng = ctx.rng
     ks = ZERO_RUNS_QUICK + (ZERO_RUNS_THOROUGH if ctx.thorough else [rng.choice(ZERO_RUNS_THOROUGH[:6])])
+    ks += sorted({x for L in new_literals(1 << 21) for x in (L - 1, L, L + 1) if x > 3})[:30]      # bounds a change introduced
     cases = []
     for k in ks:
         blk = rand_bytes(rng, 16)
@@ -1106,8 +1166,11 @@ def tie_C10(ctx):
             elif kind == 2:         # same seed, same history
                 c = [f"new 0 {g} seed {seed.hex()}", f"new 1 {g} seed {seed.hex()}"] + \
                     [l for o in pre for l in op_lines(0, [o]) + op_lines(1, [o])] + ["eq 0 1"]
-            else:                   # near miss: one extra op, or one seed bit
-                if rng.random() < 0.5:
+            else:                   # near miss: one extra op, different op kinds (same position, different half flag), or one seed bit
+                if i % 8 == 3:
+                    a, b = rng.choice([("u64", "u32"), ("u32", "u64"), ("fill 8", "u32"), ("fill 4", "u32")])
+                    c = [f"new 0 {g} seed {seed.hex()}"] + op_lines(0, pre) + ["clone 1 0"] + op_lines(0, [a]) + op_lines(1, [b]) + ["eq 0 1"]
+                elif rng.random() < 0.5:
                     c = [f"new 0 {g} seed {seed.hex()}"] + op_lines(0, pre) + ["clone 1 0"] + \
                         op_lines(1, [rng.choice(["u32", "u64"])]) + ["eq 0 1"]
                 else:
@@ -1153,6 +1216,8 @@ def tie_C10(ctx):
         e0 = o[eq_at]
         cont_pairs = [(o[i], o[i + 1]) for i in range(eq_at + 1, len(c) - 1, 2)]
         same = all(x == y for x, y in cont_pairs)
+        if e0 == "true" and g not in REAL_EQ:
+            ctx.dist[f"{g}: == available"] += 1
         if kind == 2 and g in REAL_EQ and e0 != "true":
             ctx.fail("eq-same", f"{g}: two generators built from the same seed with the same history do not compare equal", c,
                      expected="true", actual=e0)
@@ -1163,7 +1228,7 @@ def tie_C10(ctx):
                 ctx.fail("clone-eq", f"{g}: a clone does not compare equal to its original", c, expected="true", actual=e0)
             if not same:
                 ctx.fail("clone-future", f"{g}: a clone returns different values than its original", c)
-        if g in REAL_EQ and e0 == "true":
+        if e0 == "true":             # whichever type offers == (probed at compile time by the harness)
             if not same:
                 ctx.fail("eq-future", f"{g}: generators that compare equal return different values", c)
             if o[-1] != "true":
@@ -1996,6 +2061,21 @@ def tie_C16(ctx):
              "calls 0", "clonefrom 5 1", "u32 5", "calls 0", "u32 1", "calls 0", "u64 3", "u64 3"]
         cases.append(c); meta.append((5, r))
         ctx.dist[f"clone_from:dst_pending={dst_pending},src_pending={src_pending}"] += 1
+    # fault at a particular point: the timer runs dry (its closure unwinds) inside the collection of a next_u64 / fill_bytes that
+    # follows a next_u32; the caller catches the unwind, the timer is replenished, and the next next_u32 must still come from a
+    # fresh collection (the pending half was to be discarded by the interrupted call)
+    for i in range(ctx.scale(24, 200)):
+        r = rng.choice([1, 2, 3])
+        fresh_reads = 1 + 3 * (1 + r)
+        first = good_readings(rng, fresh_reads)                 # exactly one collection for the first next_u32
+        cut = rng.randrange(1, fresh_reads)                      # the second collection gets only `cut` readings
+        more = good_readings(rng, cut)
+        rest = good_readings(rng, 4 * fresh_reads + 8)
+        x = rng.choice(["u64 1", "fill 1 8", "fill 1 13", "fill 1 5"])
+        c = [f"timer 0 {rd_hex(first + more)}", "jit 1 0", f"rounds 1 {r}", "u32 1", "calls 0", x, "calls 0",
+             f"tappend 0 {rd_hex(rest)}", "u32 1", "calls 0"]
+        cases.append(c); meta.append((6, r))
+        ctx.dist["timer-unwinds-mid-collection"] += 1
     # real-vs-real (twin on an identical timer); the Jitter model itself is tied to the code by C12's absolute tie
     h = ctx.real("JitterRng halves, fresh collections, clones: twins on identical timer scripts with call counts", cases)
     ctx.traces_validated += len(cases)
@@ -2003,6 +2083,16 @@ def tie_C16(ctx):
         b = o[6:]
         fresh = 1 + 3 * (1 + r)
         if "blocked" in o:
+            continue
+        if shape == 6:
+            # o: timer, jit, rounds, u32, calls, X(blocked), calls, tappend, u32, calls
+            if o[5] != "blocked" or o[7] != "ok" or o[8] in ("blocked", "panic"):
+                continue
+            c2, c3 = int(o[6]), int(o[9])
+            if c3 - c2 < fresh:
+                ctx.fail("discard", f"after `{c[5]}` was interrupted by the timer unwinding (caught by the caller), next_u32 handed out the "
+                         f"pending half of the old value without a fresh collection ({c3 - c2} timer readings, need >= {fresh})", c,
+                         expected="fresh collection", actual=o[8])
             continue
         if shape == 5:
             if o[12] != "ok":
@@ -2160,6 +2250,37 @@ def tie_C17(ctx):
             ctx.fail("debug", f"{g}: Debug output contains a state / buffered output word ({sorted(leak)[0]:#x})", c)
 
 # ------------------------------------------------------------------ C18: build configurations
+
+
+# ------------------------------------------------------------------ the block cores driven directly (BlockRngCore::generate)
+def core_level(ctx, gens):
+    """`generate` is public API (BlockRngCore): the k-th block must be a function of the core alone — the same whether the
+    caller passes a fresh (Default) buffer, a dirty one or always the same one — and equal to the k-th block the wrapper
+    hands out.  Real code only (the model's `generate` takes the core and returns the block)."""
+    rng, cases, meta = ctx.rng, [], []
+    for g in gens:
+        info = GENS[g]
+        blk, wb = info["blk"], info["w"] // 8
+        for _ in range(ctx.scale(3, 20)):
+            seed = pick_seed(rng, info["seed"])
+            for k in (1, 2, 3, rng.randrange(4, 9)):
+                c = [f"core {g} {seed.hex()} {k} fresh", f"core {g} {seed.hex()} {k} dirty", f"core {g} {seed.hex()} {k} same",
+                     f"new 0 {g} seed {seed.hex()}", f"fill 0 {(k - 1) * blk * wb}", f"fill 0 {blk * wb}"]
+                cases.append(c); meta.append((g, k, wb))
+                ctx.dist[f"{g}:core-level generate"] += 1
+    outs = ctx.real("BlockRngCore::generate driven directly with fresh / dirty / reused result buffers vs the wrapper's blocks", cases)
+    for (g, k, wb), c, o in zip(meta, cases, outs):
+        if o[0] in ("unsupported", "bad-op"):
+            continue
+        # the harness prints words big-endian; the wrapper's fill is little-endian bytes
+        raw = bytes.fromhex(o[5]) if o[5] not in ("-", "panic") else b""
+        want = "".join(raw[i:i + wb][::-1].hex() for i in range(0, len(raw), wb))
+        if not (o[0] == o[1] == o[2]):
+            ctx.fail("core-generate", f"{g}: the block produced by generate() depends on the previous contents of the caller's result "
+                     f"buffer (block {k}: fresh / dirty / reused buffers give different words)", c, expected=o[0][:64], actual=(o[1] if o[1] != o[0] else o[2])[:64])
+        elif o[0] != want:
+            ctx.fail("core-generate", f"{g}: block {k} of the core driven directly differs from block {k} handed out by the wrapper", c,
+                     expected=want[:64], actual=o[0][:64])
 
 # ------------------------------------------------------------------ arithmetic-edge corpus shared by C02 / C14 / C18
 def hc128_edge_seeds(ctx, n_carry=40, per_kind=2):
